@@ -243,7 +243,9 @@ class Builder:
             rec['wf'] = [1 if id(u) in wfset else 0 for u in final]
             # width-first units the function created that are NOT in the emitted list (creation index)
             rec['wf_lost'] = [cpos[id(u)] + 1 for u in log['wf'] if id(u) not in pos]
-            if desc:
+            # (bytes the independent reader cannot parse are not fed to the library's reader: garbage counts
+            #  could make it allocate without bound; the verdict is 'malformed' anyway)
+            if desc and rec['parsed']['ok'] == 1:
                 rec['desc'] = [self.describe(lambda: self.sdc.SynthDesc.new_from(sd)),
                                self.describe(lambda: self.sdc.SynthDesc._read_stream(io.BytesIO(data))[0])]
             if gc_safe:
